@@ -127,6 +127,12 @@ pub fn c14_reader_max_len() {
     if declared > max {
         assert!(matches!(a, Err(Error::InvalidLen)), "frame larger than max_len not refused");
         assert!(r.reader().pos == 4, "payload bytes consumed although the frame was refused");
+        drop(a);
+        let (_src, buf) = r.into_parts();
+        assert!(buf.len() <= max as usize && buf.capacity() <= 4, "the reader sized its buffer for a frame above max_len");
+        kani::cover!(declared == max + 1);
+        core::mem::forget(buf);
+        return;
     } else {
         assert!(!matches!(a, Err(Error::InvalidLen)));
     }
